@@ -63,7 +63,7 @@ CLAIMED = {
         technique=_CB + ": Kani/CBMC contract harnesses on new/pack/accessors/Ord/from_str of the real timestamp.rs; std integer parsers havocked by stubs so from_str is proved total for every parse outcome",
         text="Proof: pack/accessor/from_u64 round trips and the lexicographic order are discharged for all field values (all 2^64 pairs for the order); from_str is proved panic-free and field-exact for every outcome of the four integer parsers, and the real splitn runs on inputs with 0..5 fields.",
         design_ref="DESIGN.md section 4, C10",
-        note="Display formatting (core::fmt) cannot be taken at full width: print-then-parse is checked on four concrete boundary stamps with nothing stubbed (thorough tier, bounded). Not covered: the rkyv archived form (assumed). Integer parsers are assumed panic-free (stubbed) in the totality proof.",
+        note="Not covered: Display formatting (core::fmt) -- print-then-parse on ONE concrete stamp with nothing stubbed did not finish in 20 min (attempt kept in the harness file, not registered) -- and the rkyv archived form (assumed). Integer parsers are assumed panic-free (stubbed).",
     ),
     "C11": _c(
         _CB + ": Kani/CBMC contracts on run_clock, Clock::get_time and Clock::register_ts sliced from datacake-node/src/clock.rs (FIFO stand-in channel, arbitrary wall "
